@@ -167,32 +167,32 @@ func (c *HTCondorClient) Connect(ctx context.Context) error {
 		// of 300 ms is slower than ideal for HTCondor's typical
 		// multi-collector deployments.
 		if d := verifhook.Dialer(); d != nil {
-			// verif build only: dial through the simulated network.
+			// verif build only: dial through the simulated network, then continue
+			// with the common tail below exactly as after a real dial.
 			conn, dialErr := d(ctx, "tcp", addrInfo.ServerAddr)
 			if dialErr != nil {
 				return fmt.Errorf("failed to connect to %s: %w", addrInfo.ServerAddr, dialErr)
 			}
 			c.stream = stream.NewStream(conn)
-			c.stream.SetPeerAddr(c.config.Address)
-			return nil
+		} else {
+			fbDelay := c.config.FallbackDelay
+			if fbDelay == 0 {
+				fbDelay = DefaultDialerFallbackDelay
+			}
+			dialer := &net.Dialer{
+				Timeout:       c.config.Timeout,
+				FallbackDelay: fbDelay,
+			}
+			conn, dialErr := dialer.DialContext(ctx, "tcp", addrInfo.ServerAddr)
+			if dialErr != nil {
+				return fmt.Errorf("failed to connect to %s: %w", addrInfo.ServerAddr, dialErr)
+			}
+			// Enable TCP keepalives (best-effort; a failure to set them must not
+			// fail an otherwise-good connection, matching C++ set_keepalive which
+			// only logs on failure).
+			_ = c.config.keepAliveConfig().Apply(conn)
+			c.stream = stream.NewStream(conn)
 		}
-		fbDelay := c.config.FallbackDelay
-		if fbDelay == 0 {
-			fbDelay = DefaultDialerFallbackDelay
-		}
-		dialer := &net.Dialer{
-			Timeout:       c.config.Timeout,
-			FallbackDelay: fbDelay,
-		}
-		conn, dialErr := dialer.DialContext(ctx, "tcp", addrInfo.ServerAddr)
-		if dialErr != nil {
-			return fmt.Errorf("failed to connect to %s: %w", addrInfo.ServerAddr, dialErr)
-		}
-		// Enable TCP keepalives (best-effort; a failure to set them must not
-		// fail an otherwise-good connection, matching C++ set_keepalive which
-		// only logs on failure).
-		_ = c.config.keepAliveConfig().Apply(conn)
-		c.stream = stream.NewStream(conn)
 	}
 
 	if err != nil {
